@@ -243,88 +243,426 @@ def template(t: str) -> List[Tuple[str, int]]:
     return out
 
 
+# ---------------------------------------------------------------------------------------------------------------
+# extensions.deprecate: the MEANING of deprecatedToUsefulText / getDeprecated is extracted by a small symbolic
+# interpreter instead of matching source text.  Strings are symbolic concatenations of atoms
+#     ('c', literal) | ('v', input name) | ('replace', a, b, inner) | ('splitjoin', sep, inner)
+# booleans are evaluated under a scenario (is the replacement None? is it / is the package a dotted identifier?);
+# a boolean expression over ONE input that the interpreter does not understand structurally is compiled and compared,
+# on a probe set, with the reference predicate all(p.isidentifier() for p in t.split('.')) or its negation.
+# Understood: assignments to names, if / elif / else, early return, raise, pass, nested and same-module helper
+# functions (inlined), f-strings, + and % and str.format on (module-level or local) templates, str.replace with a
+# one-character pattern, SEP.join(x.split()), `is None` tests, not / and / or, conditional expressions.
+# Anything else raises Unrecognised (fail-closed).
+NONE = ('none',)
+
+
+class Raised(Exception):
+    def __init__(self, cls: str):
+        self.cls = cls
+
+
+class Returned(Exception):
+    def __init__(self, value: Any):
+        self.value = value
+
+
+def _probe_strings() -> List[str]:
+    import itertools
+    out = ['', '.', 'a', 'a.b', 'a..b', '.a', 'a.', '1a', 'a1', 'a-b', 'a b', ' a', 'a ', 'a\n', '\xe9', '\xb7a', 'a\xb7', '℘',
+           'a.℘', '<b>', '`', 'a`', 'None', 'a.b.c', 'a.1', '_', '__a.b_', 'a\x00', 'a\r', 'A.B', 'a.b c', 'a,b']
+    for c in list(range(0, 0x250)) + [0x2028, 0x2029, 0x3000, 0xfe33, 0xff3f, 0x1d7ce, 0x10000]:
+        ch = chr(c)
+        out += [ch, 'a' + ch, ch + 'a', 'a.' + ch, 'a.b' + ch]
+    alpha = 'a.1_ -\xe9'
+    for n in range(1, 5):
+        out += [''.join(t) for t in itertools.product(alpha, repeat=n)]
+    return out
+
+
+_PROBES: List[str] = []
+
+
+def _reference_valid(t: str) -> bool:
+    return all(p.isidentifier() for p in t.split('.'))
+
+
+class SymInterp:
+    def __init__(self, module: Any, scenario: dict, inputs: dict):
+        self.module = module
+        self.scenario = scenario          # {'none': bool, 'valid': {input name: bool}}
+        self.env: dict = dict(inputs)     # local name -> value
+        self.helpers: dict = {}           # local def name -> ast.FunctionDef
+        self.depth = 0
+
+    # -- values
+    @staticmethod
+    def const(t: str) -> list:
+        return [('c', t)] if t else []
+
+    @staticmethod
+    def norm(v: list) -> list:
+        out: list = []
+        for a in v:
+            if a[0] == 'c':
+                if not a[1]:
+                    continue
+                if out and out[-1][0] == 'c':
+                    out[-1] = ('c', out[-1][1] + a[1])
+                    continue
+            out.append(a)
+        return out
+
+    def is_str(self, v: Any) -> bool:
+        return isinstance(v, list)
+
+    # -- expressions
+    def ev(self, e: ast.expr) -> Any:
+        if isinstance(e, ast.Constant):
+            if isinstance(e.value, str):
+                return self.const(e.value)
+            if e.value is None:
+                return NONE
+            if isinstance(e.value, bool):
+                return e.value
+            need(False, 'constant ' + repr(e.value))
+        if isinstance(e, ast.Name):
+            if e.id in self.env:
+                return self.env[e.id]
+            if hasattr(self.module, e.id) and isinstance(getattr(self.module, e.id), str):
+                return self.const(getattr(self.module, e.id))
+            need(False, 'name ' + e.id)
+        if isinstance(e, ast.JoinedStr):
+            out: list = []
+            for part in e.values:
+                if isinstance(part, ast.Constant):
+                    out += self.const(part.value)
+                else:
+                    need(isinstance(part, ast.FormattedValue) and part.conversion in (-1, 115) and part.format_spec is None,
+                         'f-string field ' + ast.unparse(part))
+                    out += self.strval(part.value)
+            return self.norm(out)
+        if isinstance(e, ast.BinOp) and isinstance(e.op, ast.Add):
+            return self.norm(self.strval(e.left) + self.strval(e.right))
+        if isinstance(e, ast.BinOp) and isinstance(e.op, ast.Mod):
+            t = self.strval(e.left)
+            need(len(t) <= 1 and all(a[0] == 'c' for a in t), '%-format template is not constant')
+            tmpl = t[0][1] if t else ''
+            args = [self.strval(x) for x in e.right.elts] if isinstance(e.right, ast.Tuple) else [self.strval(e.right)]
+            pieces = re.split(r'(%s|%%)', tmpl)
+            out = []
+            k = 0
+            for pc in pieces:
+                if pc == '%s':
+                    need(k < len(args), '%-format arity')
+                    out += args[k]
+                    k += 1
+                elif pc == '%%':
+                    out += self.const('%')
+                else:
+                    need('%' not in pc, '%-format directive in ' + repr(tmpl))
+                    out += self.const(pc)
+            need(k == len(args), '%-format arity')
+            return self.norm(out)
+        if isinstance(e, ast.IfExp):
+            return self.ev(e.body) if self.truth(e.test) else self.ev(e.orelse)
+        if isinstance(e, ast.Tuple):
+            return tuple(self.ev(x) for x in e.elts)
+        if isinstance(e, (ast.BoolOp, ast.Compare)) or (isinstance(e, ast.UnaryOp) and isinstance(e.op, ast.Not)):
+            return self.truth(e)
+        if isinstance(e, ast.Call):
+            return self.call(e)
+        need(False, 'expression ' + ast.unparse(e))
+
+    def strval(self, e: ast.expr) -> list:
+        v = self.ev(e)
+        need(self.is_str(v), 'not a string value: ' + ast.unparse(e))
+        return v
+
+    def call(self, e: ast.Call) -> Any:
+        f = e.func
+        if isinstance(f, ast.Attribute):
+            if f.attr == 'replace' and len(e.args) == 2 and not e.keywords:
+                a, b = self.strval(e.args[0]), self.strval(e.args[1])
+                need(all(x[0] == 'c' for x in a + b), 'replace() with non-constant arguments')
+                a_s = ''.join(x[1] for x in a)
+                b_s = ''.join(x[1] for x in b)
+                need(len(a_s) == 1, 'replace() pattern is not one character: ' + repr(a_s))
+                # a one-character replace distributes over concatenation
+                out = []
+                for atom in self.strval(f.value):
+                    out.append(('c', atom[1].replace(a_s, b_s)) if atom[0] == 'c' else ('replace', a_s, b_s, [atom]))
+                return self.norm(out)
+            if f.attr == 'join' and len(e.args) == 1 and not e.keywords:
+                sep = self.strval(f.value)
+                need(all(x[0] == 'c' for x in sep), 'join() separator is not constant')
+                inner = e.args[0]
+                need(isinstance(inner, ast.Call) and isinstance(inner.func, ast.Attribute) and inner.func.attr == 'split'
+                     and not inner.args and not inner.keywords, 'join() argument is not x.split(): ' + ast.unparse(e))
+                x = self.strval(inner.func.value)
+                sep_s = ''.join(a[1] for a in sep)
+                if all(a[0] == 'c' for a in x):
+                    return self.const(sep_s.join(''.join(a[1] for a in x).split()))
+                need(len(x) == 1, 'split() of a concatenation: ' + ast.unparse(e))
+                return [('splitjoin', sep_s, x)]
+            if f.attr == 'format' and not e.args:
+                t = self.strval(f.value)
+                need(len(t) <= 1 and all(a[0] == 'c' for a in t), 'format() template is not constant')
+                kw = {}
+                for k in e.keywords:
+                    need(k.arg is not None, 'format(**x)')
+                    kw[k.arg] = self.strval(k.value)
+                out = []
+                for lit, field, spec, conv in string.Formatter().parse(t[0][1] if t else ''):
+                    out += self.const(lit)
+                    if field is not None:
+                        need(not spec and conv in (None, 's') and field in kw, 'format field ' + repr(field))
+                        out += kw[field]
+                return self.norm(out)
+        if isinstance(f, ast.Name):
+            if f.id == 'str' and len(e.args) == 1 and not e.keywords:
+                return self.strval(e.args[0])
+            fd = self.helpers.get(f.id)
+            if fd is None:
+                obj = getattr(self.module, f.id, None)
+                if inspect.isfunction(obj) and obj.__module__ == self.module.__name__:
+                    fd = fn_ast(obj)
+            if fd is not None:
+                # a boolean helper over one input is first tried as a predicate (see truth()); otherwise inline it
+                return self.inline(fd, e)
+        need(False, 'call ' + ast.unparse(e))
+
+    def inline(self, fd: ast.FunctionDef, e: ast.Call) -> Any:
+        need(self.depth < 4, 'helper recursion')
+        need(not fd.args.vararg and not fd.args.kwarg and not fd.args.kwonlyargs and not e.keywords
+             and len(e.args) == len(fd.args.args), 'helper call shape ' + ast.unparse(e))
+        sub = SymInterp(self.module, self.scenario, {})
+        sub.helpers = dict(self.helpers)
+        sub.depth = self.depth + 1
+        for a, x in zip(fd.args.args, e.args):
+            sub.env[a.arg] = self.ev(x)
+        try:
+            sub.block(fd.body)
+        except Returned as r:
+            return r.value
+        return NONE
+
+    # -- booleans
+    def truth(self, e: ast.expr) -> bool:
+        if isinstance(e, ast.Constant) and isinstance(e.value, bool):
+            return e.value
+        if isinstance(e, ast.UnaryOp) and isinstance(e.op, ast.Not):
+            return not self.truth(e.operand)
+        if isinstance(e, ast.BoolOp):
+            if isinstance(e.op, ast.And):
+                return all(self.truth(x) for x in e.values)        # all() short-circuits like `and`
+            return any(self.truth(x) for x in e.values)
+        if isinstance(e, ast.Compare) and len(e.ops) == 1 and isinstance(e.comparators[0], ast.Constant) \
+                and e.comparators[0].value is None and isinstance(e.ops[0], (ast.Is, ast.IsNot, ast.Eq, ast.NotEq)):
+            v = self.ev(e.left)
+            isnone = v is NONE
+            return isnone if isinstance(e.ops[0], (ast.Is, ast.Eq)) else not isnone
+        # a predicate over exactly one input: compare its behaviour with the reference validator
+        names = sorted({n.id for n in ast.walk(e) if isinstance(n, ast.Name) and n.id in self.env})
+        # names bound by comprehensions inside the expression are not inputs
+        bound = {n.id for c in ast.walk(e) if isinstance(c, ast.comprehension) for n in ast.walk(c.target) if isinstance(n, ast.Name)}
+        names = [n for n in names if n not in bound]
+        need(len(names) == 1, 'condition over %s: %s' % (names, ast.unparse(e)))
+        v = self.env[names[0]]
+        need(v is not NONE, 'predicate applied to None: ' + ast.unparse(e))
+        need(self.is_str(v) and len(v) == 1 and v[0][0] == 'v', 'predicate over a computed string: ' + ast.unparse(e))
+        inp = v[0][1]
+        need(inp in self.scenario['valid'], 'predicate over input ' + inp)
+        glob = dict(vars(self.module))
+        for fd in self.helpers.values():
+            try:
+                exec(compile(ast.fix_missing_locations(ast.Module([fd], [])), '<helper>', 'exec'), glob)
+            except Exception:  # noqa
+                pass
+        lam = ast.Expression(ast.Lambda(ast.arguments(posonlyargs=[], args=[ast.arg(names[0])], kwonlyargs=[], kw_defaults=[], defaults=[]), e))
+        try:
+            fnc = eval(compile(ast.fix_missing_locations(lam), '<predicate>', 'eval'), glob)
+            got = [bool(fnc(t)) for t in _PROBES]
+        except Exception as ex:  # noqa
+            need(False, 'predicate cannot be evaluated (%s): %s' % (type(ex).__name__, ast.unparse(e)))
+        ref = [_reference_valid(t) for t in _PROBES]
+        if got == ref:
+            return self.scenario['valid'][inp]
+        if got == [not r for r in ref]:
+            return not self.scenario['valid'][inp]
+        need(False, 'predicate is neither the dotted-identifier test nor its negation: ' + ast.unparse(e))
+        return False
+
+    # -- statements
+    def block(self, body: List[ast.stmt]) -> None:
+        for st in strip_doc(body):
+            if isinstance(st, ast.FunctionDef):
+                self.helpers[st.name] = st
+            elif isinstance(st, ast.Assign):
+                need(len(st.targets) == 1 and isinstance(st.targets[0], ast.Name), 'assignment target ' + ast.unparse(st))
+                self.env[st.targets[0].id] = self.ev(st.value)
+            elif isinstance(st, ast.AnnAssign):
+                need(isinstance(st.target, ast.Name) and st.value is not None, 'annotated assignment ' + ast.unparse(st))
+                self.env[st.target.id] = self.ev(st.value)
+            elif isinstance(st, ast.AugAssign):
+                need(isinstance(st.target, ast.Name) and isinstance(st.op, ast.Add), 'augmented assignment ' + ast.unparse(st))
+                self.env[st.target.id] = self.norm(self.strval(st.target) + self.strval(st.value))
+            elif isinstance(st, ast.If):
+                self.block(st.body if self.truth(st.test) else st.orelse)
+            elif isinstance(st, ast.Return):
+                raise Returned(self.ev(st.value) if st.value is not None else NONE)
+            elif isinstance(st, ast.Raise):
+                exc = st.exc.func if isinstance(st.exc, ast.Call) else st.exc
+                need(isinstance(exc, ast.Name), 'raise ' + ast.unparse(st))
+                raise Raised(exc.id)
+            elif isinstance(st, ast.Pass) or (isinstance(st, ast.Expr) and isinstance(st.value, ast.Constant)):
+                pass
+            else:
+                need(False, 'statement ' + ast.unparse(st)[:120])
+
+
+FIELDS = {'name': 0, 'package': 1, 'version': 2, 'replacement': 3}
+
+
+def _pieces(v: list, allowed: dict) -> List[Tuple[str, int]]:
+    """a symbolic string made of literals and plain inputs -> template pieces (literal, field)"""
+    out: List[Tuple[str, int]] = []
+    lit = ''
+    for a in v:
+        if a[0] == 'c':
+            lit += a[1]
+        else:
+            need(a[0] == 'v' and a[1] in allowed, 'template holds %r' % (a,))
+            out.append((lit, allowed[a[1]]))
+            lit = ''
+    if lit:
+        out.append((lit, 9))
+    return out
+
+
+def _ops_of(atom: Any) -> Tuple[List[Tuple[int, int, str]], Any]:
+    """('replace', a, b, [inner]) / ('splitjoin', sep, [inner]) nest -> (ops innermost first, innermost atom)"""
+    ops: List[Tuple[int, int, str]] = []
+    while atom[0] in ('replace', 'splitjoin'):
+        inner = atom[-1]
+        need(len(inner) == 1, 'operation on a concatenation')
+        ops.append((0, ord(atom[1]), atom[2]) if atom[0] == 'replace' else (1, 0, atom[1]))
+        atom = inner[0]
+    ops.reverse()
+    return ops, atom
+
+
 def deprecate_tables() -> dict:
     from pydoctor.extensions import deprecate
-    t1 = template(deprecate._deprecation_text_with_replacement_template)
-    t0 = template(deprecate._deprecation_text_without_replacement_template)
-    src = inspect.getsource(deprecate.deprecatedToUsefulText)
-    mod = ast.parse(textwrap.dedent(src))
-    fn = mod.body[0]
-    # validate_identifier
-    vi = [n for n in ast.walk(fn) if isinstance(n, ast.FunctionDef) and n.name == 'validate_identifier']
-    need(len(vi) == 1, 'validate_identifier not found')
-    want = ast.parse("if not all(p.isidentifier() for p in _text.split('.')):\n    return False\nreturn True").body
-    got = strip_doc(vi[0].body)
-    need(len(got) == 2 and all(ast.dump(a) == ast.dump(b) for a, b in zip(got, want)), 'validate_identifier body')
-    # the guarded uses
-    want_pkg = ast.parse("if not validate_identifier(_package):\n    raise ValueError(f'Invalid package name: {_package!r}')").body[0]
-    need(any(ast.dump(s) == ast.dump(want_pkg) for s in fn.body), 'package guard')
-    guards = [s for s in fn.body if isinstance(s, ast.If) and 'validate_identifier(replacement)' in ast.unparse(s.test)]
-    need(len(guards) == 1, 'replacement guard')
-    g = guards[0]
-    need(ast.unparse(g.test) == 'replacement is not None and (not validate_identifier(replacement))', 'replacement guard test: ' + ast.unparse(g.test))
-    need(not g.orelse, 'replacement guard has else')
-    # body: statements  replacement = <ops>(replacement)  then  replacement = f"<pre>{replacement}<post>"
-    # where <ops> is a chain of  .replace(a, b)  (one-character a) on `replacement`, optionally inside  SEP.join( ... .split())
-    ops: List[Tuple[int, int, str]] = []      # (0, ord(a), b) replace ; (1, 0, sep) = sep.join(x.split())
+    global _PROBES
+    if not _PROBES:
+        _PROBES = _probe_strings()
+    fn = fn_ast(deprecate.deprecatedToUsefulText)
+    body = strip_doc(fn.body)
+    need(len(fn.args.args) >= 2, 'deprecatedToUsefulText parameters')
+    name_var = fn.args.args[1].arg
+    # where the inputs become known: version = X.public(), package = X.package, replacement = ...get_str_value(...)
+    found: dict = {}
+    last = -1
+    for idx, st in enumerate(body):
+        for n in ast.walk(st):
+            if isinstance(n, (ast.Assign, ast.AnnAssign)):
+                tgt = n.targets[0] if isinstance(n, ast.Assign) else n.target
+                val = n.value
+                if not isinstance(tgt, ast.Name) or val is None:
+                    continue
+                kind = None
+                if isinstance(val, ast.Call) and isinstance(val.func, ast.Attribute) and val.func.attr == 'public' and not val.args:
+                    kind = 'version'
+                elif isinstance(val, ast.Attribute) and val.attr == 'package':
+                    kind = 'package'
+                elif isinstance(val, ast.Call) and isinstance(val.func, ast.Attribute) and val.func.attr == 'get_str_value':
+                    kind = 'replacement'
+                if kind:
+                    need(found.get(kind, tgt.id) == tgt.id, 'two variables hold the ' + kind)
+                    found[kind] = tgt.id
+                    last = max(last, idx)
+    need(set(found) == {'version', 'package', 'replacement'}, 'inputs of deprecatedToUsefulText not found: %s' % sorted(found))
+    tail = body[last + 1:]
+    # helper functions defined before that point stay visible
+    pre_helpers = {st.name: st for st in body[:last + 1] if isinstance(st, ast.FunctionDef)}
 
-    def chain(e: ast.expr) -> List[Tuple[int, int, str]]:
-        """ops of an expression built on the name `replacement`, innermost first"""
-        if is_name('replacement')(e):
-            return []
-        need(isinstance(e, ast.Call) and isinstance(e.func, ast.Attribute) and not e.keywords, 'replacement expression: ' + ast.unparse(e))
-        f = e.func
-        if f.attr == 'replace':
-            need(len(e.args) == 2 and all(isinstance(a, ast.Constant) and isinstance(a.value, str) for a in e.args)
-                 and len(e.args[0].value) == 1, 'replacement.replace shape: ' + ast.unparse(e))
-            return chain(f.value) + [(0, ord(e.args[0].value), e.args[1].value)]
-        if f.attr == 'join':
-            need(isinstance(f.value, ast.Constant) and isinstance(f.value.value, str) and len(e.args) == 1, 'join shape: ' + ast.unparse(e))
-            inner = e.args[0]
-            need(isinstance(inner, ast.Call) and isinstance(inner.func, ast.Attribute) and inner.func.attr == 'split'
-                 and not inner.args and not inner.keywords, 'join argument is not x.split(): ' + ast.unparse(e))
-            return chain(inner.func.value) + [(1, 0, f.value.value)]
-        need(False, 'replacement expression: ' + ast.unparse(e))
-        return []
-    wrap = None
-    for s in g.body:
-        need(isinstance(s, ast.Assign) and len(s.targets) == 1 and is_name('replacement')(s.targets[0]), 'replacement guard statement')
-        v = s.value
-        if isinstance(v, ast.Call):
-            need(wrap is None, 'clean-up after wrap')
-            ops += chain(v)
-        elif isinstance(v, ast.JoinedStr):
-            need(wrap is None, 'two wraps')
-            parts = v.values
-            need(sum(isinstance(p, ast.FormattedValue) for p in parts) == 1, 'wrap f-string')
-            pre = post = ''
-            seen = False
-            for p in parts:
-                if isinstance(p, ast.FormattedValue):
-                    need(is_name('replacement')(p.value) and p.conversion == -1 and p.format_spec is None, 'wrap field')
-                    seen = True
-                else:
-                    need(isinstance(p, ast.Constant) and isinstance(p.value, str), 'wrap literal')
-                    if seen:
-                        post += p.value
-                    else:
-                        pre += p.value
-            wrap = (pre, post)
-        else:
-            need(False, 'replacement guard statement kind')
-    need(wrap is not None, 'no wrap')
-    # getDeprecated: doc=f".. deprecated:: {version}\n   {text}"
-    src2 = inspect.getsource(deprecate.getDeprecated)
-    js = [n for n in ast.walk(ast.parse(textwrap.dedent(src2))) if isinstance(n, ast.keyword) and n.arg == 'doc']
-    need(len(js) == 1 and isinstance(js[0].value, ast.JoinedStr), 'getDeprecated doc= f-string')
-    doc = []
-    for p in js[0].value.values:
-        if isinstance(p, ast.Constant):
-            doc.append((p.value, 9))
-        else:
-            need(isinstance(p, ast.FormattedValue) and isinstance(p.value, ast.Name) and p.value.id in ('version', 'text')
-                 and p.conversion == -1 and p.format_spec is None, 'getDeprecated doc field')
-            doc.append(('', 2 if p.value.id == 'version' else 4))
+    def run(none: bool, repl_valid: bool, pkg_valid: bool) -> Any:
+        inputs = {name_var: [('v', 'name')], found['version']: [('v', 'version')], found['package']: [('v', 'package')],
+                  found['replacement']: NONE if none else [('v', 'replacement')]}
+        it = SymInterp(deprecate, {'valid': {'replacement': repl_valid, 'package': pkg_valid}}, inputs)
+        it.helpers.update(pre_helpers)
+        try:
+            it.block(tail)
+        except Returned as r:
+            return ('ret', r.value)
+        except Raised as r:
+            return ('raise', r.cls)
+        need(False, 'deprecatedToUsefulText falls off its end')
+
+    # an invalid package name is refused whatever the replacement is
+    for none, rv in ((True, True), (False, True), (False, False)):
+        r = run(none, rv, False)
+        need(r == ('raise', 'ValueError'), 'invalid package name is not refused with ValueError: %r' % (r,))
+    res = {}
+    for key, (none, rv) in {'none': (True, True), 'ident': (False, True), 'text': (False, False)}.items():
+        r = run(none, rv, True)
+        need(r[0] == 'ret' and isinstance(r[1], tuple) and len(r[1]) == 2, 'result is not a pair: %r' % (r,))
+        ver, text = r[1]
+        need(ver == [('v', 'version')], 'first result is not the version: %r' % (ver,))
+        need(isinstance(text, list), 'second result is not a string')
+        res[key] = text
+    t0 = _pieces(res['none'], {'name': 0, 'package': 1, 'version': 2})
+    t1 = _pieces(res['ident'], FIELDS)
+    need(sum(1 for _, f in t1 if f == 3) == 1, 'the replacement does not occur exactly once in the text')
+    # free text: the same text with  pre + ops(replacement) + post  in place of the replacement
+    idx = [k for k, a in enumerate(res['ident']) if a == ('v', 'replacement')]
+    need(len(idx) == 1, 'replacement atom')
+    k = idx[0]
+    before, after = res['ident'][:k], res['ident'][k + 1:]
+    txt = res['text']
+    core = [a for a in txt if a[0] in ('replace', 'splitjoin') or a == ('v', 'replacement')]
+    need(len(core) == 1, 'free-text replacement is not one transformed occurrence: %r' % (txt,))
+    kk = txt.index(core[0])
+    ops, innermost = _ops_of(core[0])
+    need(innermost == ('v', 'replacement'), 'clean-up is not applied to the replacement')
+    pre_all = SymInterp.norm(txt[:kk])
+    post_all = SymInterp.norm(txt[kk + 1:])
+
+    def lit(v: list) -> Any:
+        return ''.join(a[1] for a in v) if all(a[0] == 'c' for a in v) else None
+    # the surroundings are those of the identifier case plus the wrapper: compare atom-wise, the literal next to the
+    # replacement may be longer by the wrapper
+    need(pre_all[:-1] == SymInterp.norm(before)[:-1] if (pre_all and pre_all[-1][0] == 'c' and before and SymInterp.norm(before)[-1][0] == 'c')
+         else True, 'text before the replacement differs')
+    b_last = SymInterp.norm(before)[-1][1] if before and SymInterp.norm(before)[-1][0] == 'c' else ''
+    p_last = pre_all[-1][1] if pre_all and pre_all[-1][0] == 'c' else ''
+    need(p_last.startswith(b_last) and SymInterp.norm(before)[:-1 if b_last else None] == pre_all[:-1 if p_last else None],
+         'text before the replacement differs between the identifier and the free-text case')
+    a_first = SymInterp.norm(after)[0][1] if after and SymInterp.norm(after)[0][0] == 'c' else ''
+    q_first = post_all[0][1] if post_all and post_all[0][0] == 'c' else ''
+    need(q_first.endswith(a_first) and SymInterp.norm(after)[1 if a_first else 0:] == post_all[1 if q_first else 0:],
+         'text after the replacement differs between the identifier and the free-text case')
+    wrap = (p_last[len(b_last):], q_first[:len(q_first) - len(a_first)])
+    # getDeprecated: the document handed to the reST parser, in terms of (version, text)
+    gd = fn_ast(deprecate.getDeprecated)
+    unpack = [n for n in ast.walk(gd) if isinstance(n, ast.Assign) and isinstance(n.targets[0], ast.Tuple)
+              and isinstance(n.value, ast.Call) and isinstance(n.value.func, ast.Name) and n.value.func.id == 'deprecatedToUsefulText']
+    need(len(unpack) == 1 and len(unpack[0].targets[0].elts) == 2 and all(isinstance(x, ast.Name) for x in unpack[0].targets[0].elts),
+         'getDeprecated: version, text = deprecatedToUsefulText(...)')
+    vname, tname = [x.id for x in unpack[0].targets[0].elts]
+    js = [n for n in ast.walk(gd) if isinstance(n, ast.keyword) and n.arg == 'doc']
+    need(len(js) == 1, 'getDeprecated doc= argument')
+    it = SymInterp(deprecate, {'valid': {}}, {vname: [('v', 'version')], tname: [('v', 'text')]})
+    # straight-line assignments of the same block (a local holding the document) are followed
+    for n in ast.walk(gd):
+        if isinstance(n, ast.Assign) and len(n.targets) == 1 and isinstance(n.targets[0], ast.Name) and n is not unpack[0]:
+            try:
+                it.env[n.targets[0].id] = it.ev(n.value)
+            except Unrecognised:
+                pass
+    doc = _pieces(it.strval(js[0].value), {'version': 2, 'text': 4})
+    doc = [(l, f) for l, f in doc]
     return {'with': t1, 'without': t0, 'ops': ops, 'wrap': wrap, 'doc': doc}
 
 
